@@ -513,7 +513,11 @@ class CompilerPassGenerateCode(CompilerPass):
             if isinstance(last_node, nodes.Expr):
                 last_node = last_node.value
 
-            if isinstance(last_node, nodes.Call):
+            if isinstance(last_node, nodes.Call) and not (
+                isinstance(last_node.func, nodes.Name)
+                and is_builtin_name(last_node.func.name)
+            ):
+                # a built-in such as yield_() or sb(..) is an instruction, not a call
                 ndata = last_node._ndata
                 sd = self.data.get_sym_data(last_node.func)
                 if sd.is_read != 1 or not self.data.options.inline_functions:
